@@ -178,7 +178,8 @@ def judge_response(ctx, fns, spec, arrays, ds, err, little, sizes, where):
         try:
             with warnings.catch_warnings():
                 warnings.simplefilter("ignore")
-                var = ds[fq] if path else ds[v["name"]]
+                # pydap addresses a variable by its stored name (`.` quoted as %2E)
+                var = ds[R.fqn(path, G.dap_quote(v["name"]))] if path else ds[G.dap_quote(v["name"])]
             data = np.asarray(var.data)
         except Exception as e:
             ctx.oracle_fail("declared variable missing from the decoded dataset", dict(case, var=fq), err_class(e), fq,
@@ -239,6 +240,8 @@ def check_responses(ctx, fns, n, label, big=False, **kw):
                 ds, err = unpack_impl(fns, resp, via_file)
             judge_response(ctx, fns, spec, arrays, ds, err, little, sizes, "file" if via_file else "buffer")
             doc_order = [R.fqn(p, v["name"]) if p else v["name"] for p, v in R.walk_vars(spec)]
+            spy_seen_quoted = list(spy.seen)
+            spy.seen = [G.dap_unquote(k) for k in spy.seen]
             if ds is not None and spy.seen != doc_order:
                 ctx.oracle_fail("variables are decoded in another order than the DMR declares them",
                                 {"kind": "response", "spec": spec, "arrays": {k: G.be_hex(v) for k, v in arrays.items()},
@@ -256,11 +259,12 @@ def check_responses(ctx, fns, n, label, big=False, **kw):
                 impl = "(err %s)" % err
             else:
                 impl = "(ok %s" % ("<" if little else ">")
-                # decode order of the implementation = order in which the model lists them; values as bit patterns
+                # listed in the order the implementation consumed them (the model lists its `decodeOrder`);
+                # values as bit patterns
                 by_key = {G.var_key(v): v for v in fns["walk"](ds, fns["BaseType"])}
-                for p, v in R.walk_vars(spec):
-                    key = R.fqn(p, v["name"]) if p else v["name"]
-                    var = by_key.get(key)
+                for qkey in spy_seen_quoted:
+                    var = by_key.get(qkey)
+                    key = G.dap_unquote(qkey)
                     if var is None:
                         impl += " (%s missing)" % G.hexs(key)
                         continue
@@ -407,7 +411,8 @@ def explore(ctx, fns, tier):
     check_chunktype(ctx, fns)
     check_dechunk(ctx, fns, 1500 * k)
     check_responses(ctx, fns, 150 * k, "flat", groups=False)
-    check_responses(ctx, fns, 350 * k, "groups")
+    check_responses(ctx, fns, 300 * k, "groups")
+    check_responses(ctx, fns, 50 * k, "quoted-names", var_names=G.NAMES[:4] + G.QUOTED_NAMES)
     check_responses(ctx, fns, 1 if tier == "quick" else 6, "big", big=True)
     check_dechunk_big(ctx, fns, 1 if tier == "quick" else 6)
     check_index(ctx, fns, 250 * k)
@@ -449,7 +454,7 @@ def replay(payload):
             ds, err = unpack_impl(fns, resp)
         judge_response(ctx, fns, spec, arrays, ds, err, c["little"], sizes, "replay")
         doc_order = [R.fqn(p, v["name"]) if p else v["name"] for p, v in R.walk_vars(spec)]
-        if ds is not None and spy.seen != doc_order:
+        if ds is not None and [G.dap_unquote(k) for k in spy.seen] != doc_order:
             ctx.oracle_fail("decode order differs from document order", c, spy.seen, doc_order)
     else:
         idx = idx_from_json(c["index"])
